@@ -217,12 +217,77 @@ def check(prop, tier, replay=None):
             if rep == 0:
                 first = S.regs_of(ev)
             straces.append({"c": c, "ev": ev, "peer": first, "usepeer": True, "info": f"{kind} split #{rep + 1}"})
+    # ---- (b2) several splits alive at the same time (default validator, identical parameters), consumed interleaved: each must be what
+    # it is on its own.  The windows' verdicts come from a fresh validator per window (C07 decides the validator itself).
+    for _ in range(80 if tier == "quick" else 1200):
+        case = S.gen_case(rng, True, tier)
+        if len(case["pat"]) < 2:
+            continue
+        durs = S.to_floats(case["units"])
+        c = S.cfg_of(case["units"], case["sr"], case["B"], case["flags"])
+        bps = case["sw"] * case["ch"]
+        pats = [case["pat"], [not v for v in case["pat"]] if rng.random() < .5 else rng.sample(case["pat"], len(case["pat"]))]
+        if rng.random() < .3:
+            pats.append(list(reversed(case["pat"])))
+        datas = [S.synth(pt, case["B"], case["tail"], case["sw"], case["ch"])[0] for pt in pats]
+        kw = dict(min_dur=durs["min_dur"], max_dur=durs["max_dur"], max_silence=durs["max_silence"], drop_trailing_silence=case["flags"][0],
+                  strict_min_dur=case["flags"][1], analysis_window=durs["analysis_window"], energy_threshold=S.ETH)
+        how = rng.choice(["zip", "suspend", "nested"])
+        got = [[] for _ in datas]
+        errs = [None for _ in datas]
+        try:
+            if rng.random() < .5:
+                gens = [core.split(d_, sampling_rate=case["sr"], sample_width=case["sw"], channels=case["ch"], **kw) for d_ in datas]
+            else:
+                gens = [core.AudioRegion(d_, case["sr"], case["sw"], case["ch"]).split(**kw) for d_ in datas]
+            if how == "zip":
+                live = list(range(len(gens)))
+                while live:
+                    for k in list(live):
+                        try:
+                            got[k].append(next(gens[k]))
+                        except StopIteration:
+                            live.remove(k)
+            elif how == "suspend":
+                try:
+                    got[0].append(next(gens[0]))
+                except StopIteration:
+                    pass
+                for k in range(1, len(gens)):
+                    got[k] += list(gens[k])
+                got[0] += list(gens[0])
+            else:
+                for r0 in gens[0]:
+                    got[0].append(r0)
+                    if len(got[0]) == 1:
+                        for k in range(1, len(gens)):
+                            got[k] += list(gens[k])
+                for k in range(1, len(gens)):
+                    got[k] += list(gens[k])
+        except Exception as exc:  # noqa
+            errs = [type(exc).__name__ for _ in datas]
+        for k, (d_, pt) in enumerate(zip(datas, pats)):
+            ev = []
+            nwin = len(pt)
+            for j in range(nwin):
+                size = case["B"] if j < nwin - 1 else case["tail"]
+                win = d_[j * case["B"] * bps:(j * case["B"] + size) * bps]
+                ev.append({"e": "W", "v": bool(util.AudioEnergyValidator(S.ETH, case["sw"], case["ch"]).is_valid(win)), "n": size})
+            if errs[k]:
+                ev.append({"e": "ERR", "cls": errs[k]})
+            else:
+                for r in got[k]:
+                    fi = round(r.start * case["sr"])
+                    ev.append({"e": "REG", "first": fi, "len": len(r), "ok": bool(bytes(r) == d_[fi * bps:(fi + len(r)) * bps]), "tok": True})
+                ev.append({"e": "END"})
+            straces.append({"c": c, "ev": ev, "peer": [], "usepeer": False, "info": f"split #{k + 1} of {len(datas)} alive at once ({how})"})
     srows, sst = S.judge_split(straces, wd, tag="rs")
     V.cov["states"] += sst
     for tr, row in zip(straces, srows):
-        if row[2] != row[3] or row[7]:
+        if row[2] != row[3] or row[7] or (not tr["usepeer"] and (row[4] or row[5])):
             V.violation({"c": tr["c"], "info": tr["info"], "windows": [e["v"] for e in tr["ev"] if e["e"] == "W"]},
-                        S.describe(tr) + f": differs from the first split of the same object {tr['peer']}", {"leg": "T-split", "trace": tr})
+                        S.describe(tr) + (f": differs from the first split of the same object {tr['peer']}" if tr["usepeer"] else ": not the regions of this audio on its own"),
+                        {"leg": "T-split", "trace": tr})
     V.cov["traces_validated_against_impl"] += len(straces)
     V.count(len(straces), (canon([t_["c"], t_["info"], [e.get("v") for e in t_["ev"] if e["e"] == "W"]]) for t_ in straces if S.regs_of(t_["ev"])))
     V.leg("T-split", traces=len(straces))
@@ -245,12 +310,19 @@ def check(prop, tier, replay=None):
             amp = rng.choice([0, 1, 12, 100])
             wins.append([rng.randint(-amp, amp) for _ in range(n * C)])
         order = wins + wins[::-1] + rng.sample(wins, len(wins))
+        inplace = rng.random() < .5
+        buf = bytearray()
         for vals in order:
             mv, bnd = E.mirror_verdict(vals, C, sel, 2 * k)
             if bnd and not E.boundary_usable(2 * k, C, sel, bnd == 1):
                 continue
             data = E.enc(vals, sw)
-            got = "T" if v.is_valid(data) else "F"
+            if inplace:
+                # a capture loop that refills one pre-allocated buffer (readinto): the same object, new content
+                buf[:] = data
+                got = "T" if v.is_valid(buf) else "F"
+            else:
+                got = "T" if v.is_valid(data) else "F"
             ecases.append({"b": list(data), "sw": sw, "c": C, "selk": sel[0], "name": ("none" if sel[1] is None else sel[1]) if sel[0] == "name" else "",
                            "idx": sel[1] if sel[0] == "idx" else 0, "k": k, "got": got, "vals": vals})
     tcfg = "SPECIFICATION Spec\nCONSTRAINT Mon\nPOSTCONDITION Post\nCHECK_DEADLOCK FALSE\n"
